@@ -58,8 +58,8 @@ def model_part(v, tier, clauses, props, seed_off=0):
     from . import algomodel as AM, algotrace as AT
     from .common import seed as vseed, VERIF as ROOT
     quick = tier == "quick"
-    shapes = (["single", "pair", "pair3", "pairrev", "parallel", "isolated", "path3", "path3d3", "fork3", "triangle", "twocomp"] if quick else
-              ["single", "pair", "pair3", "pairrev", "parallel", "isolated", "path3", "path3d3", "fork3", "triangle", "twocomp", "path4", "star4", "cycle4", "tritail"])
+    shapes = (["single", "pair", "pair3", "pairrev", "parallel", "isolated", "isomid", "isofirst", "gap4", "path3", "path3d3", "fork3", "triangle", "twocomp"] if quick else
+              ["single", "pair", "pair3", "pairrev", "parallel", "isolated", "isomid", "isofirst", "gap4", "path3", "path3d3", "fork3", "triangle", "twocomp", "path4", "star4", "cycle4", "tritail"])
     invs = ["QuietMeansFinished", "FirstFinishesFirst", "SingleToken", "ValueInDomain", "BoundIsACost", "PathsWellFormed", "TerminatedMeansOptimal"]
     allinsts, strata = [], {}
     for k, (stratum, alpha, n, shp, modes) in enumerate((("nonneg", [0, 1, 2, 5], 2 if quick else 8, shapes, ("min", "max")),
